@@ -181,7 +181,7 @@ with dtramp (fuel : nat) (p : value) (args : list value) (env : nat) (st : state
                     dod (vs, st3, d3) <- deval_args f aes last_env st2 d2 ;;
                     match first with
                     | VProcU _ _ _ _ | VProcB _ => dtramp f first vs env st3 d3
-                    | _ => (err TypeMisMatch, st3, d3)
+                    | _ => (lerr TypeMisMatch (eloc fe), st3, d3)
                     end
                 end
             | _ => (Panic PUnmodelled, st, d)
